@@ -671,10 +671,10 @@ class Body:
                     if src and 'agg' not in rv:
                         work.append(src['l'])
                     if 'agg' in rv and rv.get('ops'):
-                        o0 = rv['ops'][0]
-                        s0 = o0.get('cp') or o0.get('mv')
-                        if s0 and not s0.get('pr'):
-                            work.append(s0['l'])
+                        for o0 in rv['ops'][:6]:
+                            s0 = o0.get('cp') or o0.get('mv')
+                            if s0 and not s0.get('pr'):
+                                work.append(s0['l'])
                 elif d[0] == 'call' and d[2].get('name') == 'branch' and d[2]['args']:
                     a = d[2]['args'][0]
                     src = a.get('cp') or a.get('mv')
@@ -692,6 +692,24 @@ class Body:
 
     _BRANCH_MAP = {'Ok': 'Continue', 'Some': 'Continue', 'Err': 'Break', 'None': 'Break', 'Ready': None}
     _TEST_FNS = {'is_err': ('Err', 'Ok'), 'is_ok': ('Ok', 'Err'), 'is_some': ('Some', 'None'), 'is_none': ('None', 'Some')}
+
+    @staticmethod
+    def _proj_know(kk, pr):
+        """knowledge about place `x.pr` given knowledge kk about x (aggregates remember what they were built from)"""
+        for e in pr:
+            if kk is None:
+                return None
+            if isinstance(e, dict) and 'v' in e:
+                if kk[0] != 'v' or kk[1] != e['v']:
+                    return None
+            elif isinstance(e, dict) and 'f' in e:
+                pay = kk[2] if kk[0] == 'v' else (kk[1] if kk[0] == 't' else None)
+                if not pay or e['f'] >= len(pay):
+                    return None
+                kk = pay[e['f']]
+            else:
+                return None
+        return kk if (kk and kk[0] in ('v', 't')) else None
 
     def _ps_edges(self, bb, know):
         """[(successor, knowledge dict on that edge)]: _ps_step plus what the branch itself teaches (a switch on the
@@ -753,24 +771,23 @@ class Body:
             if l not in rel:
                 continue
             new = None
-            if 'agg' in rv and rv['agg'].get('kind') == 'adt' and rv['agg'].get('variant'):
-                pk = None
-                if len(rv.get('ops', [])) == 1:
-                    o0 = rv['ops'][0]
+            if 'agg' in rv and rv['agg'].get('kind') in ('adt', 'tuple') and len(rv.get('ops', [])) <= 6:
+                pks = []
+                for o0 in rv.get('ops', []):
                     s0 = o0.get('cp') or o0.get('mv')
-                    if s0 is not None and not s0.get('pr'):
-                        pk = know.get(s0['l'])
-                new = ('v', rv['agg']['variant'], pk)
+                    kk0 = know.get(s0['l']) if (s0 is not None and not s0.get('pr')) else None
+                    pks.append(kk0 if (kk0 and kk0[0] in ('v', 't')) else None)
+                if rv['agg'].get('kind') == 'tuple':
+                    new = ('t', tuple(pks)) if any(pks) else None
+                elif rv['agg'].get('variant'):
+                    new = ('v', rv['agg']['variant'], (tuple(pks) if any(pks) else None))
             elif 'use' in rv:
                 op = rv['use']
                 src = op.get('cp') or op.get('mv')
                 if src is not None and not src.get('pr'):
                     new = know.get(src['l'])
-                elif src is not None and len(src['pr']) == 2 and isinstance(src['pr'][0], dict) and 'v' in src['pr'][0] and isinstance(src['pr'][1], dict) and src['pr'][1].get('f') == 0:
-                    # payload of a known variant: (x as V).0
-                    kk = know.get(src['l'])
-                    if kk and kk[0] == 'v' and kk[1] == src['pr'][0]['v'] and len(kk) > 2:
-                        new = kk[2]
+                elif src is not None:
+                    new = self._proj_know(know.get(src['l']), src['pr'])
                 elif 'k' in op:
                     v = op['k'].get('v')
                     if isinstance(v, bool):
@@ -779,12 +796,11 @@ class Body:
                         new = ('d', v)
             elif 'discr' in rv:
                 src = rv['discr']
-                if not src.get('pr'):
-                    k = know.get(src['l'])
-                    if k and k[0] == 'v':
-                        for val, name in rv.get('variants', []):
-                            if name == k[1]:
-                                new = ('d', val)
+                k = know.get(src['l']) if not src.get('pr') else self._proj_know(know.get(src['l']), src['pr'])
+                if k and k[0] == 'v':
+                    for val, name in rv.get('variants', []):
+                        if name == k[1]:
+                            new = ('d', val)
             if new is None and 'discr' in rv and not rv['discr'].get('pr') and rv.get('variants'):
                 new = ('dx', rv['discr']['l'], tuple((v, n) for v, n in rv['variants']))
             for k_ in [k_ for k_, v_ in know.items() if v_ and v_[0] in ('dx', 'tx') and v_[1] == l]:
